@@ -22,7 +22,10 @@ LocalOps == {[op |-> "add_local", f |-> f, ty |-> t, via |-> v] :
                 f \in {1, 2}, t \in {"i32", "f64"}, v \in {"modifier", "modifier_many", "iter"}}
 
 Bodies(results) ==
-    IF results = <<>> THEN {<<>>, <<"nop">>, <<"i32_const_7", "drop">>, <<"call_0">>, <<"i64_const_m1", "drop", "nop">>}
+    IF results = <<>> THEN {<<>>, <<"nop">>, <<"i32_const_7", "drop">>, <<"call_0">>, <<"i64_const_m1", "drop", "nop">>,
+                            \* bodies whose last built instruction closes a nested construct
+                            <<"block", "end">>, <<"nop", "loop", "nop", "end">>, <<"i32_const_7", "if", "else", "nop", "end">>,
+                            <<"block", "end", "nop">>}
     ELSE {<<"i32_const_7">>, <<"nop", "i32_const_7">>}
 BuildOps ==
     {[op |-> "build", n |-> nb + 1, params |-> p, results |-> r, locals |-> l, body |-> b, name |-> nm, via |-> "module"] :
@@ -44,8 +47,8 @@ TypeOps ==
 
 Inits == {[k |-> "i32", v |-> "-1"], [k |-> "i64", v |-> "-9223372036854775808"], [k |-> "f32", v |-> "2141192193"],
           [k |-> "f64", v |-> "18444492273895866369"], [k |-> "v128", v |-> "340282366920938463463374607431768211455"],
-          [k |-> "ref_func", id |-> 1], [k |-> "ref_null"]}
-TyOfInit(i) == CASE i.k \in {"ref_func", "ref_null"} -> "funcref" [] OTHER -> i.k
+          [k |-> "ref_func", id |-> 1], [k |-> "ref_null"], [k |-> "global", id |-> 1]}
+TyOfInit(i) == CASE i.k \in {"ref_func", "ref_null"} -> "funcref" [] i.k = "global" -> "i32" [] OTHER -> i.k
 AddOps ==
        {[op |-> "add_global", ty |-> TyOfInit(i), mut |-> m, init |-> i] : i \in Inits, m \in BOOLEAN}
   \cup {[op |-> "mod_init", g |-> 0, init |-> [k |-> "i32", v |-> "99"]]}
@@ -53,7 +56,11 @@ AddOps ==
         [op |-> "add_data", kind |-> "active", mem |-> 0, off |-> [k |-> "i32", v |-> "16"], bytes |-> "6162"]}
   \cup {[op |-> "add_memory", kind |-> "local", initial |-> 2, max |-> 4, n |-> nb],
         [op |-> "add_memory", kind |-> "local", initial |-> 3, n |-> nb],
-        [op |-> "add_memory", kind |-> "local", initial |-> 1, max |-> 2, m64 |-> TRUE, n |-> nb]}
+        [op |-> "add_memory", kind |-> "local", initial |-> 1, max |-> 2, m64 |-> TRUE, n |-> nb],
+        \* imports added later move every local item of that index space up by one
+        [op |-> "add_memory", kind |-> "import", initial |-> 5, max |-> 9, n |-> nb],
+        [op |-> "add_iglobal", ty |-> "i32", mut |-> FALSE, n |-> nb],
+        [op |-> "add_ifunc", n |-> nb]}
   \cup {[op |-> "add_export", kind |-> "func", id |-> 2, n |-> nb], [op |-> "add_export", kind |-> "mem", id |-> 0, n |-> nb]}
 
 CustOps ==
@@ -63,6 +70,7 @@ CustOps ==
 
 Ops == CASE Camp = "locals" -> LocalOps
          [] Camp = "build" -> {o \in BuildOps : ValidBuild(o)} \cup ReplaceOps \cup {o \in LocalOps : o.f = 2 /\ o.via = "modifier" /\ o.ty = "f64"}
+                              \cup {[op |-> "conv", f |-> 2]}
          [] Camp = "types" -> TypeOps
          [] Camp = "adds" -> AddOps
          [] Camp = "customs" -> CustOps
@@ -78,20 +86,35 @@ Step == /\ Len(prog) < MaxOps
                   /\ (o.via = "replace" \/ \E j \in DOMAIN prog : prog[j].op = "build" /\ prog[j].via = "replace"))
              /\ ~(o.op = "build" /\ o.via = "replace" /\ \E j \in DOMAIN prog : prog[j].op = "build"
                   /\ \E i \in DOMAIN prog[j].body : prog[j].body[i] = "call_0")
+             \* converting local function 2 to an import: first step only; afterwards no replace, no call_0, no local on f2
+             /\ (o.op = "conv" => prog = <<>>)
+             /\ ((prog # <<>> /\ prog[1].op = "conv") =>
+                    /\ o.op = "build" /\ o.via # "replace" /\ ~\E i \in DOMAIN o.body : o.body[i] = "call_0")
+             \* global.get 1 in an initialiser: only when handle 1 is the added immutable imported global
+             /\ ((o.op = "add_global" /\ o.init.k = "global") => (prog # <<>> /\ prog[1].op = "add_iglobal"))
+             \* the constant variety matters per call, not per combination: at most one non-i32 initialiser per program
+             /\ ((o.op = "add_global" /\ o.init.k # "i32") => ~\E j \in DOMAIN prog : prog[j].op = "add_global" /\ prog[j].init.k # "i32")
              /\ prog' = Append(prog, o)
         /\ nb' = nb + 1 /\ UNCHANGED base
 Next == Step
 Spec == Init /\ [][Next]_vars
 
 \* properties of the Ideal list semantics (checked on a symbolic expected state)
-Sym == [types |-> <<"A", "B", "A">>, l1 |-> <<"I64">>, l2 |-> <<>>, p1 |-> 1, p2 |-> 0, funcs |-> <<>>, replaced |-> FALSE,
-        globals |-> <<"g">>, mems |-> <<"m">>, data |-> <<"d">>, exports |-> {}, customs |-> <<[name |-> "c0", bytes |-> "x"], [name |-> "c1", bytes |-> "y"]>>]
+Sym == [types |-> <<"A", "B", "A">>, l1 |-> <<"I64">>, l2 |-> <<>>, p1 |-> 1, p2 |-> 0, funcs |-> <<>>, replaced |-> FALSE, converted |-> FALSE, rejected |-> FALSE,
+        globals |-> <<"g">>, mems |-> <<"m">>, data |-> <<"d">>, iglobals |-> <<>>, imems |-> <<>>,
+        fh |-> <<TRUE, FALSE, FALSE>>, gh |-> <<FALSE>>, mh |-> <<FALSE>>, exports |-> {}, customs |-> <<[name |-> "c0", bytes |-> "x"], [name |-> "c1", bytes |-> "y"]>>]
 IdealOk ==
     /\ AddType(AddType(Sym, "C"), "C").types = <<"A", "B", "A", "C">>           \* dedup, append once
     /\ AddType(Sym, "A") = Sym /\ TypePositions(Sym, "A") = {1, 3}               \* existing never change
     /\ AddLocalRet(AddLocal(Sym, 1, "i32"), 1) = 3                               \* params + previous locals
     /\ CustDel(Sym, 0).customs = <<[name |-> "c1", bytes |-> "y"]>> /\ CustDel(Sym, 5) = Sym
     /\ CustMod(Sym, 1, "z").customs[2].bytes = "z" /\ CustMod(Sym, 1, "z").customs[1] = Sym.customs[1]
+    \* handles -> final indices: imports first, order kept; an added import moves locals up
+    /\ FinalIdx(Sym, "f", 0) = 0 /\ FinalIdx(Sym, "f", 2) = 2
+    /\ LET S2 == AddIFunc(Sym) IN FinalIdx(S2, "f", 3) = 1 /\ FinalIdx(S2, "f", 1) = 2 /\ FinalIdx(S2, "f", 2) = 3
+    /\ LET S3 == AddMemory(AddIMemory(Sym, "im"), "lm") IN
+          FinalIdx(S3, "m", 0) = 1 /\ FinalIdx(S3, "m", 1) = 0 /\ FinalIdx(S3, "m", 2) = 2 /\ S3.mems = <<"m", "lm">>
+    /\ LET S4 == AddGlobal(AddIGlobal(Sym, "ig"), "lg") IN ModInit(S4, 2, "x").globals = <<"g", "x">>
 
 EmitCase == prog # <<>> => PrintT(<<"REPLAY", ToJson([base |-> base, prog |-> prog])>>)
 =============================================================================
